@@ -2,3 +2,5 @@
 import BA.Prelude
 import BA.Generated.Constants
 import BA.Model.Paych
+import BA.Generated.Opcodes
+import BA.Model.Evm.Machine
